@@ -390,7 +390,19 @@ def spelling_families():
             ("2x<=6", "LessOrEqual", [("2*x<=6", bop("Mul", num(2), x), "LessOrEqual", 6.0), ("x*2<=6", bop("Mul", x, num(2)), "LessOrEqual", 6.0), ("x+x<=6", bop("Add", x, x), "LessOrEqual", 6.0), ("x/0.5<=6", bop("Div", x, num(0.5)), "LessOrEqual", 6.0),
                                       ("-(-2*x)<=6", neg(bop("Mul", num(-2), x)), "LessOrEqual", 6.0), ("2*(x+1)<=8", bop("Mul", num(2), bop("Add", x, num(1))), "LessOrEqual", 8.0)]),
             ("|x|<=3", "LessOrEqual", [("abs(x)<=3", ab(x), "LessOrEqual", 3.0), ("abs(x)/2<=1.5", bop("Div", ab(x), num(2)), "LessOrEqual", 1.5), ("0.5*abs(x)<=1.5", bop("Mul", num(0.5), ab(x)), "LessOrEqual", 1.5),
-                                     ("abs(x)*2<=6", bop("Mul", ab(x), num(2)), "LessOrEqual", 6.0), ("abs(x)/-2>=-1.5", bop("Div", ab(x), num(-2)), "GreaterOrEqual", -1.5), ("max(x,-x)<=3", mx(x, neg(x)), "LessOrEqual", 3.0)])]
+                                     ("abs(x)*2<=6", bop("Mul", ab(x), num(2)), "LessOrEqual", 6.0), ("abs(x)/-2>=-1.5", bop("Div", ab(x), num(-2)), "GreaterOrEqual", -1.5), ("max(x,-x)<=3", mx(x, neg(x)), "LessOrEqual", 3.0),
+                                     ("abs(x)*-2>=-6", bop("Mul", ab(x), num(-2)), "GreaterOrEqual", -6.0), ("-(abs(x)*2)>=-6", neg(bop("Mul", ab(x), num(2))), "GreaterOrEqual", -6.0)]),
+            # a negative constant written on either side of a piecewise form, as a factor, a divisor or a negation
+            ("max(x,y)<=3", "LessOrEqual", [("max(x,y)<=3", mx(x, var("y")), "LessOrEqual", 3.0), ("-2*max(x,y)>=-6", bop("Mul", num(-2), mx(x, var("y"))), "GreaterOrEqual", -6.0), ("max(x,y)*-2>=-6", bop("Mul", mx(x, var("y")), num(-2)), "GreaterOrEqual", -6.0),
+                                           ("max(x,y)/-0.5>=-6", bop("Div", mx(x, var("y")), num(-0.5)), "GreaterOrEqual", -6.0), ("-(max(x,y)*2)>=-6", neg(bop("Mul", mx(x, var("y")), num(2))), "GreaterOrEqual", -6.0), ("max(x,y)*2<=6", bop("Mul", mx(x, var("y")), num(2)), "LessOrEqual", 6.0)]),
+            # ... and in the direction that needs the exact lowering
+            ("max(x,y)>=3", "GreaterOrEqual", [("max(x,y)>=3", mx(x, var("y")), "GreaterOrEqual", 3.0), ("-2*max(x,y)<=-6", bop("Mul", num(-2), mx(x, var("y"))), "LessOrEqual", -6.0), ("max(x,y)*-2<=-6", bop("Mul", mx(x, var("y")), num(-2)), "LessOrEqual", -6.0),
+                                              ("max(x,y)/-0.5<=-6", bop("Div", mx(x, var("y")), num(-0.5)), "LessOrEqual", -6.0), ("-(max(x,y)*2)<=-6", neg(bop("Mul", mx(x, var("y")), num(2))), "LessOrEqual", -6.0), ("max(x,y)*2>=6", bop("Mul", mx(x, var("y")), num(2)), "GreaterOrEqual", 6.0)]),
+            ("min(x,y)<=-3", "LessOrEqual", [("min(x,y)<=-3", mn(x, var("y")), "LessOrEqual", -3.0), ("-2*min(x,y)>=6", bop("Mul", num(-2), mn(x, var("y"))), "GreaterOrEqual", 6.0), ("min(x,y)*-2>=6", bop("Mul", mn(x, var("y")), num(-2)), "GreaterOrEqual", 6.0),
+                                            ("min(x,y)/-0.5>=6", bop("Div", mn(x, var("y")), num(-0.5)), "GreaterOrEqual", 6.0), ("-(min(x,y)*2)>=6", neg(bop("Mul", mn(x, var("y")), num(2))), "GreaterOrEqual", 6.0)]),
+            ("|x|>=2", "GreaterOrEqual", [("abs(x)>=2", ab(x), "GreaterOrEqual", 2.0), ("abs(x)*-2<=-4", bop("Mul", ab(x), num(-2)), "LessOrEqual", -4.0), ("-2*abs(x)<=-4", bop("Mul", num(-2), ab(x)), "LessOrEqual", -4.0), ("abs(x)/-0.5<=-4", bop("Div", ab(x), num(-0.5)), "LessOrEqual", -4.0)]),
+            ("min(x,y)>=-3", "GreaterOrEqual", [("min(x,y)>=-3", mn(x, var("y")), "GreaterOrEqual", -3.0), ("-2*min(x,y)<=6", bop("Mul", num(-2), mn(x, var("y"))), "LessOrEqual", 6.0), ("min(x,y)*-2<=6", bop("Mul", mn(x, var("y")), num(-2)), "LessOrEqual", 6.0),
+                                              ("min(x,y)/-0.5<=6", bop("Div", mn(x, var("y")), num(-0.5)), "LessOrEqual", 6.0), ("-(min(x,y)*2)<=6", neg(bop("Mul", mn(x, var("y")), num(2))), "LessOrEqual", 6.0)])]
 
 
 def run(F, tier="quick"):
